@@ -63,7 +63,7 @@ structure StableG (G : KState → Key → Prop) (P : KState → Prop) : Prop whe
     P (s.modify k fun n => { n with holding := n.holding - 1 })
   /-- `Step.after_recycle` -/
   recycled : ∀ (s : KState) (k : Key) (need : Need) (shell : Bool), P s →
-    P (s.modify k fun n => { n with need := need, shell := shell, holding := 0 })
+    P (s.modify k fun n => { n with need := need, shell := shell })
   /-- `INSERT INTO dependency` after UNIQUE and `dependency_check_kinds_ins` -/
   addDep : ∀ (s : KState) (src snk : Key), s.hasDep src snk = false → depKindOk src.kind snk.kind = true → P s →
     P { s with deps := s.deps ++ [({ src := src, snk := snk } : Dep)] }
@@ -1096,7 +1096,7 @@ theorem afterRecycle_preserves (L : StableG G P) (sk : Key) (d : StepDecl) (n : 
   intro s s' hp h
   replace h : s.afterRecycle sk d n = .ok s' := h
   unfold KState.afterRecycle at h
-  have hp2 : P (s.modify sk fun n => { n with need := d.need, shell := d.shell, holding := 0 }) :=
+  have hp2 : P (s.modify sk fun n => { n with need := d.need, shell := d.shell }) :=
     L.recycled _ _ _ _ hp
   split at h
   · exact L.markStepPending'_preserves sk _ s' hp2 h
